@@ -45,6 +45,7 @@ def snap_py(k, t, tol):
 def run(tier, seed, replay=None):
     t0 = time.time()
     V = C.Verdict(PID, tier, seed)
+    O.FAR_PROB = 0.08     # some objects live far from the origin on compressed knot vectors
     l0 = C.l0_check(PID, thorough=(tier == 'thorough'))
     build_pyx.load_splipy()
     import numpy as np
@@ -287,6 +288,7 @@ def run(tier, seed, replay=None):
             samples.append(dict(case, expected=[str(v) for v in exp]))
     # default objects are the identity map; bounding boxes contain evaluated points
     nid = 0
+    default_l1 = []
     for i in range(60 if tier == 'quick' else 600):
         pd = rng.choice([1, 2, 3])
         bs = []
@@ -297,7 +299,9 @@ def run(tier, seed, replay=None):
                     break
             bs.append(b)
         ib = [BSplineBasis(b['order'], [float(x) for x in b['knots']], -1) for b in bs]
-        obj = {1: Curve, 2: Surface, 3: Volume}[pd](*ib)
+        rat_ = i % 5 == 4
+        obj = {1: Curve, 2: Surface, 3: Volume}[pd](*ib, rational=True) if rat_ else {1: Curve, 2: Surface, 3: Volume}[pd](*ib)
+        default_l1.append((rat_, [dict(order=b['order'], knots=[C.fr(float(x)) for x in b['knots']], periodic=-1) for b in bs], O.snapshot(obj), list(obj.bounding_box())))
         for _ in range(3):
             tp = [float(rng.choice([q for q in O.dir_points(rng, b, tol, outside=False)])[0]) for b in bs]
             val = np.asarray(obj.evaluate(*tp))
@@ -324,6 +328,22 @@ def run(tier, seed, replay=None):
                 if not (lo - 1e-9 * max(1, abs(lo)) <= val[c] <= hi + 1e-9 * max(1, abs(hi))):
                     V.failure({'what': 'evaluated point outside the reported bounding box', 'obj': O.spec_json(spec), 'params': tp,
                                'value': val.tolist(), 'bbox': [list(map(float, x)) for x in bb]})
+    # ---- L1: the default control net and bounding_box() vs Model/DefaultObj.v
+    dl = []
+    for rat_, bsl, snap_, bb_ in default_l1:
+        dl.append('default_obj %d %d %s' % (int(rat_), len(bsl), ' '.join(O.basis_tokens(b_) for b_ in bsl)))
+        dl.append('bounding_box %s' % O.obj_tokens(snap_))
+    douts = C.run_model(dl) if dl else []
+    for j_, (rat_, bsl, snap_, bb_) in enumerate(default_l1):
+        mo = O.read_obj(douts[2 * j_])
+        dfr = O.snaps_differ(snap_, mo, rel=1e-12)
+        if dfr:
+            corr_bad += {'what': 'L1: the default object (no control points given) differs from the model: %s' % dfr, 'form': 'default', 'rational': rat_,
+                         'bases': [dict(order=b_['order'], knots=[str(x) for x in b_['knots']]) for b_ in bsl]}
+        tkb = douts[2 * j_ + 1]
+        mbb = tkb.list(lambda: (tkb.q(), tkb.q()))
+        if len(mbb) != len(bb_) or any(abs(float(lo) - float(a)) > 1e-12 * max(1, abs(float(a))) or abs(float(hi) - float(b)) > 1e-12 * max(1, abs(float(b))) for (lo, hi), (a, b) in zip(mbb, bb_)):
+            corr_bad += {'what': 'L1: bounding_box() differs from the model', 'form': 'bounding_box', 'obj': O.spec_json(snap_)}
     rc = V.finish(l0, corr_bad)
     C.write_evidence(PID, tier, seed, l0, {
         'evaluations': evals + nid + nbb, 'distinct_nontrivial': len(nontriv),
